@@ -6,6 +6,7 @@ Import ListNotations.
 Inductive exn :=
 | EAssertion | ELookup | EType | EUnicodeEncode | EUnicodeDecode | EValue | EKey | EOverflow | EAttribute
 | EUnboundLocal | ERecursion | EIndex
+| ELibParse      (* DiffXParseError raised on the DOM side *)
 | ELibContent | ELibOrder | ELibOptionValue | ELibChoice | ELibUnknownOption   (* the library's own error family (writer / DOM side) *)
 | EUnmodelled        (* the case left the modelled universe (codec not executed by the model): harness discards it *)
 | EOracleMiss.       (* the per-case json oracle has no answer: harness error *)
@@ -21,4 +22,4 @@ Definition bind {A C} (r : res A) (f : A -> res C) : res C :=
 Notation "'do' x <- r ; k" := (bind r (fun x => k)) (at level 200, x pattern, r at level 100, k at level 200).
 
 Definition is_lib_error (e : exn) : bool :=
-  match e with ELibContent | ELibOrder | ELibOptionValue | ELibChoice | ELibUnknownOption => true | _ => false end.
+  match e with ELibParse | ELibContent | ELibOrder | ELibOptionValue | ELibChoice | ELibUnknownOption => true | _ => false end.
